@@ -169,7 +169,8 @@ def run_rules(ctx: Ctx, prop: str) -> list[RuleResult]:
             k = (inst.key, inst.ok, inst.where)
             uniq.setdefault(k, inst)
         res.instances = list(uniq.values())
-        if len(res.instances) < res.floor:
+        # (a rule that did find a violation reports it: the floor guards against vacuous passes only)
+        if len(res.instances) < res.floor and all(inst.ok for inst in res.instances):
             raise AnalysisError(
                 f"rule {res.rule}: {len(res.instances)} obligation instance(s) found, "
                 f"floor is {res.floor} (anchor vanished or construct not recognised)"
